@@ -40,6 +40,10 @@ def r_b64_writer(model, obligation):
     from aiohttp.multipart import MultipartPayloadWriter
 
     pending, chunk = _b(model.get("pending")), _b(model.get("chunk"))
+    # the obligation constrains only the LENGTHS (contents are free in the counterexample): give every byte a
+    # distinct value so that loss, duplication or reordering is visible
+    pending = bytes((i + 1) % 256 for i in range(len(pending)))
+    chunk = bytes((len(pending) + i + 1) % 256 for i in range(len(chunk)))
     out = []
 
     class W:
@@ -100,9 +104,21 @@ def r_deadline(model, obligation):
             "input": {"now": now, "timeout": timeout, "ceil_threshold": thr}}
 
 
-@native("C06.proto.should_close")
-def r_should_close(model, obligation):
-    return {"confirmed": False, "detail": "abstract protocol state: see the model in this file"}
+@native("C04.inj.safe_header")
+def r_safe_header(model, obligation):
+    from aiohttp.http_writer import _safe_header
+
+    s = model.get("s", "")
+    if not isinstance(s, str):
+        return {"confirmed": False, "detail": "no string in the model"}
+    forbidden = any(ord(ch) in (*range(0, 9), *range(10, 32), 127) for ch in s)
+    try:
+        r = _safe_header(s)
+    except ValueError:
+        return {"confirmed": not forbidden, "detail": f"_safe_header({s!r}) refused a clean string" if not forbidden else "refused", "input": s}
+    except Exception as e:  # noqa: BLE001
+        return {"confirmed": True, "detail": f"_safe_header({s!r}) raised {e!r}", "input": s}
+    return {"confirmed": forbidden or r != s, "detail": f"_safe_header({s!r}) -> {r!r} (forbidden char present: {forbidden})", "input": s}
 
 
 @native("C02.client.framing")
